@@ -56,6 +56,21 @@ type opInfo struct {
 }
 
 // an instance's view of the world: every operation passes through gate()
+// subCtx: what one submission in progress collects (its operations are ONE EvSubmit for the model)
+type subCtx struct {
+	buf          *bytes.Buffer
+	faults       []fault
+	cancel       func() // cancels the submission's request context
+	cancelOnFail bool   // a failing issuer upload of this submission is a cancelled request (client gone)
+}
+
+func (in *instance) sub() *subCtx {
+	if in.subs == nil {
+		return nil
+	}
+	return in.subs[goid()]
+}
+
 type instance struct {
 	id      int
 	w       *world
@@ -65,15 +80,11 @@ type instance struct {
 	crashAt int                               // crash (become dead) right before operation number crashAt; -1 = never
 	holdAt  int                               // block right before operation number holdAt until released; -1 = never
 	held    bool
-	buf     *bytes.Buffer // when non-nil, lines are buffered here (submission in progress)
-	subFaults []fault     // faults consumed by the operations of the submission in progress
+	subs    map[int64]*subCtx // submissions in progress, by submitter goroutine
 	nfaults int           // operations that were made to fail so far
 	seqGid  int64         // goroutine id of this instance's RunSequencer (0 before it started)
-	subGid  int64         // goroutine id of the submitter whose operations are being collected
 	holdIssuer bool       // stop the next submitter inside its issuer upload until cleared
 	subHeld    bool
-	subCancel    func()   // cancels the context of the submission in progress
-	cancelOnFail bool     // a failing issuer upload of this submission is a cancelled request (client gone)
 }
 
 var errInjected = errors.New("injected failure")
@@ -82,7 +93,7 @@ var errDead = errors.New("instance is dead")
 func (w *world) logf(in *instance, format string, a ...any) {
 	b := w.out
 	if in != nil && in.buffering() {
-		b = in.buf
+		b = in.sub().buf
 	}
 	fmt.Fprintf(b, format, a...)
 	b.WriteByte('\n')
@@ -91,7 +102,7 @@ func (w *world) logf(in *instance, format string, a ...any) {
 // buffering: the calling goroutine is the submitter whose operations are collected into one
 // EvSubmit (the sequencer goroutine of the same instance may run a round meanwhile)
 func (in *instance) buffering() bool {
-	return in.buf != nil && goid() == in.subGid
+	return in.sub() != nil
 }
 
 // gate serialises the operation, decides its fault, logs the step event, and returns the fault.
@@ -153,7 +164,8 @@ func (in *instance) gate(op opInfo) (fault, bool) {
 		in.nfaults++
 	}
 	if in.buffering() {
-		in.subFaults = append(in.subFaults, f)
+		sc := in.sub()
+		sc.faults = append(sc.faults, f)
 		return f, true
 	}
 	key := op.key
@@ -318,10 +330,10 @@ func (b simBackend) Upload(ctx context.Context, key string, data []byte, opts *c
 	if conflict {
 		return fmt.Errorf("immutable object %q already exists with different contents", key)
 	}
-	if f == fFail && b.in.buffering() && b.in.cancelOnFail && b.in.subCancel != nil && strings.HasPrefix(key, "issuer/") {
+	if sc := b.in.sub(); f == fFail && sc != nil && sc.cancelOnFail && sc.cancel != nil && strings.HasPrefix(key, "issuer/") {
 		// the submitter's request context is cancelled while the upload is in flight: a backend that
 		// honours the context (S3) reports the context's error and has stored nothing
-		b.in.subCancel()
+		sc.cancel()
 		if err := ctx.Err(); err != nil {
 			return err
 		}
